@@ -142,6 +142,13 @@ class ExprMixin:
                 if st is None:
                     raise EngineError(f"truthiness of an object of class {t.cls} (ghost field _truthy) without a state")
                 return st.load(v.z, fd[0], fd[1]).z
+            # a repository class with its own __bool__ / __len__ and no ghost view: `True` would be a guess - refuse
+            mod, ci = self.class_info(t.cls)
+            if mod is not None:
+                for c in mod.mro(t.cls):
+                    cc = mod.classes.get(c)
+                    if cc is not None and ("__bool__" in cc.methods or "__len__" in cc.methods):
+                        raise EngineError(f"truthiness of an object of class {t.cls}: {c} defines __bool__/__len__ (declare the ghost field _truthy)")
             return z3.BoolVal(True)
         if isinstance(t, TDict):
             return z3.Length(v.extra["keys"]) > 0
